@@ -100,6 +100,8 @@ def build_plan(choice: Choice, tier):
         p["fork_at"] = [d(len(ops) + 1, "fork_at") for _ in range(p["children"])]
         p["join_at"] = d(3, "join_at")   # 0: join right before leaving the context, 1: + flush after join, 2: join early
         p["raise_at_end"] = d(4, "raises") == 3
+        # a second thread of the parent that creates files too (the parent forks children meanwhile)
+        p["helper_thread_creates"] = [0, 0, 1, 2][d(4, "helper.thread")]
         p["granularity"] = "line" if d(5, "granularity") != 4 else "sync"
     return p
 
@@ -441,9 +443,23 @@ def scenario_multi(k: Kernel, plan, obs):
         obs["joined"] = True
 
     raised = None
+    helper = None
     try:
         with pool:
             obs["phase"] = "inside"
+            if plan.get("helper_thread_creates"):
+                import threading
+                from sim.kernel import patch_threading
+                patch_threading(k)
+
+                def helper_body():
+                    for _ in range(plan["helper_thread_creates"]):
+                        pth = pool.create()
+                        log.created.append(("parent-thread", pth))
+                        k.switch("helper.pause")
+
+                helper = threading.Thread(target=helper_body)
+                helper.start()
             for i, op in enumerate(plan["ops"]):
                 start_due(i)
                 if plan["join_at"] == 2 and i == len(plan["ops"]) // 2 + 1:
@@ -473,9 +489,11 @@ def scenario_multi(k: Kernel, plan, obs):
                                                     f"{[w for w, p_ in log.created if os.path.exists(p_)]}"})
                 elif kind == "listing":
                     n = len(pool)
-                    if not children and n != len(model):
+                    if not children and not plan.get("helper_thread_creates") and n != len(model):
                         viol.append({"class": "tmp-pool-multi", "site": "listing", "message": f"len={n} model={len(model)}"})
             start_due(len(plan["ops"]))
+            if helper is not None:
+                helper.join()
             join_all()
             if not any(o[0] == "flush" for o in plan["ops"]):
                 # everybody has finished and nothing was flushed: the pool must list exactly what the parent and the
